@@ -1,71 +1,40 @@
 import Echse.Lemmas.Instant4
 /-
-  Epoch conversions: tzob.c `__inst_to_epoch` / `__epoch_to_inst`, echsd.c `instant_to_tstamp`.
+  Epoch conversions, part 1: tzob.c `__inst_to_epoch` (signed, March-based years counted from 1948) and the
+  year/month steps of `__epoch_to_inst` (day numbers counted from 1900-03-01).  Everything here holds for the
+  whole stretch on which the every-4th-year rule is the Gregorian one: 1900-03-01 … 2100-02-28.
 -/
 namespace Echse.Instant
 open Echse.Gen Echse.Spec.Cal
 
 theorem epochDays_eq : epochDays = 719468 := by decide
 
+/-- the March-based year of a date -/
+def myear (y m : Nat) : Int := (y : Int) - (if m < 3 then 1 else 0)
+
 /-- tzob.c's March-based day count against the spec's `days` -/
-theorem tz_days (y m d : Nat) (hy1 : 1949 ≤ y) (hy2 : y ≤ 2099) (h1 : 1 ≤ m) (h2 : m ≤ 12) :
-    (((y - 1948 - (if m < 3 then 1 else 0)) * 365 + (y - 1948 - (if m < 3 then 1 else 0)) / 4
-      + tzobMonYday.getD m 0 + d : Nat) : Int) + 711491 = days y m d := by
-  have c1 := cent y (by omega) (by omega)
-  have c2 := cent ((y : Int) - 1) (by omega) (by omega)
+theorem tz_days (y m d : Nat) (h1 : 1 ≤ m) (h2 : m ≤ 12)
+    (hy1 : 1900 ≤ myear y m) (hy2 : myear y m ≤ 2099) :
+    (myear y m - 1948) * 365 + (myear y m - 1948) / 4 + ((tzobMonYday.getD m 0 + d : Nat) : Int) + 711491
+      = days y m d := by
+  unfold myear at *
   rcases month_cases m h1 h2 with h|h|h|h|h|h|h|h|h|h|h|h <;> subst h
-  all_goals simp [days, tzobMonYday]
+  all_goals simp [days, tzobMonYday] at *
   all_goals omega
 
-theorem days_ge_1970 (y m d : Nat) (hy : 1970 ≤ y) (h1 : 1 ≤ m) (h2 : m ≤ 12) (hd : 1 ≤ d) :
-    days 1970 1 1 ≤ days y m d := by
-  have := days_year_mono 1970 y hy
-  have := days_month_mono y 1 m (by omega) h1 h2
-  have := days_d y m d
-  omega
-
-theorem days_2100 : days 2100 1 1 = 719468 + 47482 := by decide
-
-theorem hms_nowrap (n H M S : Nat) (hn : n ≤ 47481) (hH : H < 24) (hM : M < 60) (hS : S < 60) :
-    ((((n * 24 + H) % 4294967296 * 60 + M) % 4294967296 * 60) % 4294967296 + S) % 4294967296
-      = ((n * 24 + H) * 60 + M) * 60 + S := by
-  rw [Nat.mod_eq_of_lt (a := n * 24 + H) (by omega)]
-  rw [Nat.mod_eq_of_lt (a := (n * 24 + H) * 60 + M) (by omega)]
-  rw [Nat.mod_eq_of_lt (a := ((n * 24 + H) * 60 + M) * 60) (by omega)]
-  rw [Nat.mod_eq_of_lt (by omega)]
-
-theorem instToEpoch_eq (i : Inst) (hv : ValidDate i) (hy1 : 1970 ≤ i.y) (hy2 : i.y ≤ 2099)
-    (hH : i.H < 24) (hM : i.M < 60) (hS : i.S < 60) :
-    (instToEpoch i : Int) =
-      (days i.y i.m i.d - epochDays) * 86400 + (((i.H : Int) * 60 + i.M) * 60 + i.S) := by
-  obtain ⟨h1, h2, h3, h4⟩ := hv
-  have k := tz_days i.y i.m i.d (by omega) hy2 h1 h2
-  have l := days_ge_1970 i.y i.m i.d hy1 h1 h2 h3
-  have u := days_lt_2100 i.y i.m i.d hy2 h1 h2 h4
-  rw [days_2100] at u
-  have e70 : days 1970 1 1 = 719468 := by decide
-  rw [e70] at l
-  rw [epochDays_eq]
-  have c1 : i.m ≤ 12 := h2
-  have c2 : i.H ≤ 24 := by omega
-  unfold instToEpoch
-  simp only [daisyBaseYear, daisyUnixBase, c1, c2, if_true, Nat.reducePow]
-  generalize tzobMonYday.getD i.m 0 = t at *
-  generalize days i.y i.m i.d = D at *
-  generalize hc : (if i.m < 3 then 1 else 0) = c at *
-  have hc' : c ≤ 1 := by subst hc; split <;> omega
-  have s1 : (i.y + 4294967296 - 1948 - c) % 4294967296 = i.y - 1948 - c := by omega
-  rw [s1]
-  have s2 : ((i.y - 1948 - c) * 365 + (i.y - 1948 - c) / 4) % 4294967296
-      = (i.y - 1948 - c) * 365 + (i.y - 1948 - c) / 4 := by omega
-  rw [s2]
-  have s3 : ((i.y - 1948 - c) * 365 + (i.y - 1948 - c) / 4 + (t + i.d) + 4294967296 - 7977) % 4294967296
-      = (i.y - 1948 - c) * 365 + (i.y - 1948 - c) / 4 + (t + i.d) - 7977 := by omega
-  rw [s3]
-  have hn : (i.y - 1948 - c) * 365 + (i.y - 1948 - c) / 4 + (t + i.d) - 7977 + 719468 = D := by omega
-  rw [hms_nowrap _ _ _ _ (by omega) hH hM hS]
-  omega
-/-- the year step of `__epoch_to_inst`: (years since the base year, day number of its 1 March − 1) -/
+/-- `__inst_to_epoch` with only the month a month: day, minute and second are counted on linearly, the hour is
+clamped to 24 (so an all-day instant, `H = 255`, stands for the END of its day) -/
+theorem instToEpoch_eq (i : Inst) (h1 : 1 ≤ i.m) (h2 : i.m ≤ 12)
+    (hy1 : 1900 ≤ myear i.y i.m) (hy2 : myear i.y i.m ≤ 2099) :
+    instToEpoch i =
+      (days i.y i.m i.d - epochDays) * 86400 +
+        ((((if i.H ≤ 24 then i.H else 24 : Nat) : Int) * 60 + i.M) * 60 + i.S) := by
+  have k := tz_days i.y i.m i.d h1 h2 hy1 hy2
+  rw [epochDays_eq, ← k]
+  unfold instToEpoch myear
+  simp only [daisyBaseYear, daisyUnixBase, h2, if_true]
+  split <;> split <;> omega
+/-- the year step of `__epoch_to_inst`: (years since 1900-03, day number of its 1 March − 1) -/
 def yearStep (d : Nat) : Nat × Nat :=
   let w : Nat := 2^32
   let u32 (z : Int) : Nat := (z % (w : Int)).toNat
@@ -87,20 +56,21 @@ def monStep (doy : Nat) : Nat × Nat :=
   if (dom : Int) ≤ cake then (mon, u32 ((doy : Int) - (((mon : Int) - 1) * 32 - 19 + beef)))
   else (mon + 1, u32 ((doy : Int) - ((mon : Int) * 32 - 19 + cake)))
 
-theorem epochToInst_eq (t : Nat) :
-    epochToInst t =
+theorem epochToInstI_eq (t : Int) :
+    epochToInstI t =
       (let w : Nat := 2^32
-       let d := (t / 86400 + daisyUnixBase) % w
-       let s := t % 86400
+       let d : Nat := ((t / 86400 + (daisyUnixBase : Nat) + 17532) % (w : Int)).toNat
+       let s : Nat := (t - t / 86400 * 86400).toNat
        let p := yearStep d
        let q := monStep (((d : Int) - p.2) % (w : Int)).toNat
-       { y := (p.1 + daisyBaseYear + (if q.1 > 10 then 1 else 0)) % 65536, m := tzobRm.getD q.1 0, d := q.2 % 256,
+       { y := (p.1 + daisyBaseYear - 48 + (if q.1 > 10 then 1 else 0)) % 65536, m := tzobRm.getD q.1 0, d := q.2 % 256,
          S := s % 60, M := s / 60 % 60, H := (s / 3600) % 256, ms := allSec }) := by
-  unfold epochToInst yearStep monStep
+  unfold epochToInstI yearStep monStep
   with_reducible rfl
+
 set_option maxRecDepth 4000 in
-theorem yearStep_spec (d : Nat) (h1 : 7977 ≤ d) (h2 : d < 55459) :
-    ∃ b : Nat, yearStep d = (b, b * 365 + b / 4) ∧ 21 ≤ b ∧ b ≤ 151 ∧ b * 365 + b / 4 < d ∧
+theorem yearStep_spec (d : Nat) (h1 : 1 ≤ d) (h2 : d < 73050) :
+    ∃ b : Nat, yearStep d = (b, b * 365 + b / 4) ∧ b ≤ 199 ∧ b * 365 + b / 4 < d ∧
       d ≤ b * 365 + b / 4 + 365 + (if b % 4 = 3 then 1 else 0) := by
   unfold yearStep
   simp only []
@@ -113,18 +83,17 @@ theorem yearStep_spec (d : Nat) (h1 : 7977 ≤ d) (h2 : d < 55459) :
     clear hw
     have s2 : (((d / 365 : Nat) : Int) - 1) % 4294967296 = ((d / 365 - 1 : Nat) : Int) := by omega
     rw [s2, Int.toNat_natCast]
-    refine ⟨d / 365 - 1, ?_, by omega, by omega, by omega, ?_⟩
+    refine ⟨d / 365 - 1, ?_, by omega, by omega, ?_⟩
     · rw [Nat.mod_eq_of_lt (by omega)]
     · clear s1 s2
       by_cases c4 : (d / 365 - 1) % 4 = 3
       · rw [if_pos c4]; omega
       · rw [if_neg c4]; omega
   · rw [if_neg c]
-    refine ⟨d / 365, rfl, by omega, by omega, by omega, ?_⟩
+    refine ⟨d / 365, rfl, by omega, by omega, ?_⟩
     by_cases c4 : (d / 365) % 4 = 3
     · rw [if_pos c4]; omega
     · rw [if_neg c4]; omega
-
 /-- month lengths of a common year -/
 def mlen (m : Nat) : Nat := instMdays.getD m 0
 
@@ -155,17 +124,18 @@ theorem feb29 (y : Nat) (h1 : 1901 ≤ y) (h2 : y ≤ 2099) (h4 : y % 4 = 0) : m
   simp [monthLen, this]
 
 set_option maxRecDepth 4000 in
-/-- the date computed by `__epoch_to_inst` for day number `n` since the epoch -/
-theorem epochDate (n : Nat) (hn : n < 47482) :
-    ∃ b q1 q2 : Nat, yearStep (n + 7977) = (b, b * 365 + b / 4) ∧
-      monStep (n + 7977 - (b * 365 + b / 4)) = (q1, q2) ∧ b * 365 + b / 4 < n + 7977 ∧
+/-- the date computed by `__epoch_to_inst` for day number `d` (1 = 1900-03-01 … 73049 = 2100-02-28) -/
+theorem epochDate (d : Nat) (h1 : 1 ≤ d) (h2 : d < 73050) :
+    ∃ b q1 q2 : Nat, yearStep d = (b, b * 365 + b / 4) ∧
+      monStep (d - (b * 365 + b / 4)) = (q1, q2) ∧ b * 365 + b / 4 < d ∧
       (let m := tzobRm.getD q1 0
-       let y := b + 1948 + (if q1 > 10 then 1 else 0)
-       1 ≤ m ∧ m ≤ 12 ∧ 1 ≤ q2 ∧ q2 ≤ monthLen y m ∧ 1970 ≤ y ∧ y ≤ 2099 ∧ days y m q2 = 719468 + n) := by
-  obtain ⟨b, hb, b1, b2, b3, b4⟩ := yearStep_spec (n + 7977) (by omega) (by omega)
-  have ms := monStep_spec (n + 7977 - (b * 365 + b / 4)) (by split at b4 <;> omega) (by omega)
-  refine ⟨b, (monStep (n + 7977 - (b * 365 + b / 4))).1, (monStep (n + 7977 - (b * 365 + b / 4))).2, hb, rfl, b3, ?_⟩
-  generalize monStep (n + 7977 - (b * 365 + b / 4)) = q at *
+       let y := b + 1948 - 48 + (if q1 > 10 then 1 else 0)
+       1 ≤ m ∧ m ≤ 12 ∧ 1 ≤ q2 ∧ q2 ≤ monthLen y m ∧ 1900 ≤ myear y m ∧ myear y m ≤ 2099 ∧
+       days y m q2 = 693959 + d) := by
+  obtain ⟨b, hb, b2, b3, b4⟩ := yearStep_spec d h1 h2
+  have ms := monStep_spec (d - (b * 365 + b / 4)) (by split at b4 <;> omega) (by omega)
+  refine ⟨b, (monStep (d - (b * 365 + b / 4))).1, (monStep (d - (b * 365 + b / 4))).2, hb, rfl, b3, ?_⟩
+  generalize monStep (d - (b * 365 + b / 4)) = q at *
   simp only [] at ms ⊢
   obtain ⟨m1, m2, m3, m4, m5, m6⟩ := ms
   generalize hm : tzobRm.getD q.1 0 = m at *
@@ -175,19 +145,11 @@ theorem epochDate (n : Nat) (hn : n < 47482) :
     · rw [if_pos c, if_pos (m6.1 c)]
     · rw [if_neg c, if_neg (fun h => c (m6.2 h))]
   rw [hc]
-  have hy1 : 1970 ≤ b + 1948 + (if m < 3 then 1 else 0) := by
-    split
-    · omega
-    · have := tzyday_other m (by omega) m2
-      rcases m4 with h | ⟨_, h, _⟩ <;> omega
-  have hy2 : b + 1948 + (if m < 3 then 1 else 0) ≤ 2099 := by
-    split
-    · next h => have := hjf h; split at b4 <;> omega
-    · omega
-  have hd := tz_days (b + 1948 + (if m < 3 then 1 else 0)) m q.2 (by omega) hy2 m1 m2
-  have hbb : b + 1948 + (if m < 3 then 1 else 0) - 1948 - (if m < 3 then 1 else 0) = b := by split <;> omega
-  rw [hbb] at hd
-  refine ⟨m1, m2, m3, ?_, hy1, hy2, by omega⟩
+  have hmy : myear (b + 1948 - 48 + (if m < 3 then 1 else 0)) m = (b : Int) + 1900 := by
+    unfold myear; split <;> omega
+  have hd := tz_days (b + 1948 - 48 + (if m < 3 then 1 else 0)) m q.2 m1 m2 (by omega) (by omega)
+  rw [hmy] at hd ⊢
+  refine ⟨m1, m2, m3, ?_, by omega, by omega, by omega⟩
   rcases m4 with h | ⟨h1, h2, h3⟩
   · exact Nat.le_trans h (mlen_le _ m m1 m2)
   · subst h2
@@ -197,51 +159,4 @@ theorem epochDate (n : Nat) (hn : n < 47482) :
       · rw [if_neg c] at b4; omega
     rw [h3, show (if 2 < 3 then 1 else 0) = 1 from rfl, feb29 _ (by omega) (by omega) (by omega)]
     exact Nat.le_refl _
-set_option maxRecDepth 10000 in
-theorem frEpoch (t : Nat) (h : t < 4102444800) :
-    NormalSec (epochToInst t) ∧ 1970 ≤ (epochToInst t).y ∧ (epochToInst t).y ≤ 2099 ∧
-    absSec (epochToInst t) = epochDays * 86400 + t := by
-  obtain ⟨b, q1, q2, hy, hq, hlt, m1, m2, d1, d2, y1, y2, hd⟩ := epochDate (t / 86400) (by omega)
-  rw [epochToInst_eq, epochDays_eq]
-  simp only [daisyUnixBase, daisyBaseYear, Nat.reducePow, Int.cast_ofNat_Int]
-
-  have e1 : (t / 86400 + 7977) % 4294967296 = t / 86400 + 7977 := by omega
-  simp only [e1, hy]
-  have s1 : ((((t / 86400 + 7977 : Nat) : Int) - ((b * 365 + b / 4 : Nat) : Int)) % 4294967296).toNat
-      = t / 86400 + 7977 - (b * 365 + b / 4) := by omega
-  simp only [s1, hq]
-  generalize hY : (b + 1948 + if q1 > 10 then 1 else 0) = Y at *
-  generalize hm : tzobRm.getD q1 0 = m at *
-  have ml := monthLen_pos Y m m1 m2
-  have e2 : Y % 65536 = Y := by omega
-  have e3 : q2 % 256 = q2 := by omega
-  simp only [e2, e3]
-  refine ⟨⟨⟨m1, m2, d1, d2⟩, ?_, ?_, ?_, rfl⟩, y1, y2, ?_⟩
-  · show t % 86400 / 3600 % 256 < 24; omega
-  · show t % 86400 / 60 % 60 < 60; omega
-  · show t % 86400 % 60 < 60; omega
-  · simp only [absSec]
-    rw [hd]
-    omega
-/-- echsd.c's January-based day count (days since 2001-01-00, Gregorian leap rule, floor division)
-against the spec's `days`; every year, before and after 2001 -/
-theorem ts_days (y m d : Nat) (h1 : 1 ≤ m) (h2 : m ≤ 12) :
-    365 * ((y : Int) - 2001) + ((y : Int) - 2001) / 4 - ((y : Int) - 2001) / 100 + ((y : Int) - 2001) / 400
-      + (echsdMonYday.getD m 0 : Nat) + (d : Nat)
-      + (if (y % 4 == 0 && (y % 100 != 0 || y % 400 == 0)) && decide (m ≥ 3) then 1 else 0) + 730790
-      = days y m d := by
-  rcases month_cases m h1 h2 with h|h|h|h|h|h|h|h|h|h|h|h <;> subst h
-  all_goals simp [days, echsdMonYday]
-  all_goals try split
-  all_goals omega
-
-/-- echsd.c `instant_to_tstamp` on every instant with a month 1..12, whatever the year and the other fields -/
-theorem instToTstamp_eq (i : Inst) (h1 : 1 ≤ i.m) (h2 : i.m ≤ 12) :
-    instToTstamp i = (days i.y i.m i.d - epochDays) * 86400 +
-      (if i.isAllDay then 0 else (((i.H : Int) * 60 + i.M) * 60 + i.S)) := by
-  have k := ts_days i.y i.m i.d h1 h2
-  unfold instToTstamp
-  simp only [echsdEpochDays, epochDays_eq]
-  rw [← k]
-  split <;> omega
 end Echse.Instant
